@@ -185,6 +185,7 @@ CASES = [
     ({'buff_size': 8, 'buff_min_num': 1, 'buff_max_num': 1, 'interval': 1}, [[1], [2], [3]]),
     ({'buff_size': 8, 'buff_min_num': 1, 'buff_max_num': 2, 'interval': 1}, [[-3], [2]]),
     ({'buff_size': 4, 'buff_min_num': 1, 'buff_max_num': 1, 'interval': 1}, [[-2, -3]]),
+    ({'buff_size': 2, 'buff_min_num': 1, 'buff_max_num': 2, 'interval': 1}, [[2, 2, 2], [2, 1]]),          # more buffers' worth than the limit: buffers must come back
 ]
 
 
